@@ -382,10 +382,8 @@ def spec_unwindset(target, h, bound=24, rec_bound=9):
     specification evaluator depend on the *pattern* (number of patterns, alternatives, class ranges, literal bytes): they get
     their own, larger bound through CBMC's --unwindset, computed from the harness's goto binary."""
     import glob
-    cands = glob.glob(os.path.join(target, 'kani', '*', 'debug', 'build', '*', '*', 'out', '*proofs*%s.out' % h))
-    cands = [c for c in cands if re.search(r'proofs\d+%s\.out$' % re.escape(h), c)]
-    if not cands: return None
-    f = max(cands, key=os.path.getmtime)
+    f = goto_binary(target, h)
+    if not f: return None
     p = subprocess.run(['cbmc', '--show-loops', f], capture_output=True, text=True)
     loops = sorted(set(m.group(1) for m in re.finditer(r'^Loop (\S+?):$', p.stdout, re.M) if '5k_lex4spec' in m.group(1)))
     if not loops: return None
@@ -394,6 +392,98 @@ def spec_unwindset(target, h, bound=24, rec_bound=9):
     for fn in ('4ends', '5alive'):     # recursion bounds, only for functions present in this harness's binary
         if any(l.startswith(prefix + fn + '.') for l in loops): items.append('%s%s:%d' % (prefix, fn, rec_bound))
     return ','.join(items)
+
+CBMC_FLAGS = ['--no-malloc-may-fail', '--no-undefined-shift-check', '--no-signed-overflow-check', '--nan-check',
+              '--no-self-loops-to-assumptions', '--no-pointer-primitive-check', '--object-bits', '16',
+              '--sat-solver', 'cadical', '--slice-formula']      # exactly what kani-driver 0.68 passes (taken from its process list)
+
+def goto_binary(target, h):
+    import glob
+    cands = glob.glob(os.path.join(target, 'kani', '*', 'debug', 'build', '*', '*', 'out', '*proofs*%s.out' % h))
+    cands = [c for c in cands if re.search(r'proofs\d+%s\.out$' % re.escape(h), c) and not c.endswith('.inst.out')]
+    return max(cands, key=os.path.getmtime) if cands else None
+
+def parse_cbmc_json(text):
+    """CBMC --json-ui output of a Kani goto binary -> the same record parse_regular produces.
+    Kani's instrumentation: propertyClass `cover`: FAILURE means the cover point is SATISFIED; `reachability_check`: FAILURE means
+    reachable (used only to tell UNREACHABLE checks apart); `unwind`: unwinding assertion; everything else is a real check."""
+    res = dict(status='unknown', failed_checks=[], checks=0, failed=0, unreachable=0, time_s=None, covers={}, playback=None)
+    try:
+        doc = json.loads(text)
+    except Exception as e:
+        res['error'] = 'cbmc output is not JSON: %r' % e
+        return res
+    for x in doc:
+        if 'result' in x:
+            for r in x['result']:
+                loc = r.get('sourceLocation', {}) or {}
+                cls = loc.get('propertyClass') or r.get('property', '').rsplit('.', 2)[-2] if '.' in r.get('property', '') else ''
+                desc = re.sub(r'^\[KANI_CHECK_ID_[^\]]*\]\s*', '', r.get('description', ''))
+                if cls == 'reachability_check': continue
+                if cls == 'cover':
+                    st = 'SATISFIED' if r['status'] == 'FAILURE' else ('UNSATISFIABLE' if r['status'] == 'SUCCESS' else r['status'])
+                    if st == 'SATISFIED' or desc not in res['covers']: res['covers'][desc] = st
+                    continue
+                res['checks'] += 1
+                if r['status'] == 'FAILURE':
+                    where = '%s:%s in function %s' % (loc.get('file', '?'), loc.get('line', '?'), loc.get('function', '?'))
+                    res['failed_checks'].append((desc.strip('"'), where))
+        if 'cProverStatus' in x:
+            res['status'] = 'ok' if x['cProverStatus'] == 'success' else 'fail'
+        if x.get('messageType') == 'ERROR':
+            res['error'] = (res.get('error', '') + ' ' + x.get('messageText', ''))[-1500:]
+    seen = set(); fc = []
+    for y in res['failed_checks']:
+        if y not in seen: seen.add(y); fc.append(y)
+    res['failed_checks'] = fc; res['failed'] = len(fc)
+    if res['status'] == 'fail' and not fc:
+        res['status'] = 'ok'         # only cover / reachability instrumentation "failed"
+    if res.get('error') and res['status'] != 'ok' and not fc:
+        res['status'] = 'unknown'
+    return res
+
+def instrument(f):
+    """The steps kani-driver 0.68 performs between code generation and CBMC (taken from `cargo kani --verbose`): set the entry
+    point, add the C library models, give undefined functions an assert-false body and drop unused functions, normalise loops.
+    Written to a separate file so that kani-driver's own artifacts stay untouched."""
+    out = f[:-4] + '.inst.out'
+    if os.path.exists(out) and os.path.getmtime(out) >= os.path.getmtime(f): return out, None
+    mangled = '_' + os.path.basename(f)[:-4].split('__', 1)[1]
+    steps = [['goto-cc', f, '--function', mangled, '-o', out],
+             ['goto-instrument', '--add-library', '--no-malloc-may-fail', out, out],
+             ['goto-instrument', '--generate-function-body-options', 'assert-false-assume-false', '--generate-function-body', '.*', '--drop-unused-functions', out, out],
+             ['goto-instrument', '--ensure-one-backedge-per-target', out, out]]
+    for st in steps:
+        p = subprocess.run(st, capture_output=True, text=True)
+        if p.returncode != 0:
+            try: os.remove(out)
+            except OSError: pass
+            return None, '%s failed: %s' % (st[0], (p.stderr or p.stdout)[-500:])
+    return out, None
+
+def _one_cbmc(args):
+    crate_dir, target, h, unwind, timeout = args
+    f0 = goto_binary(target, h)
+    if not f0:
+        return h, dict(status='unknown', failed_checks=[], checks=0, failed=0, covers={}, playback=None, time_s=None, error='no goto binary for %s' % h, wall_s=0, cmd='')
+    f, err = instrument(f0)
+    if not f:
+        return h, dict(status='unknown', failed_checks=[], checks=0, failed=0, covers={}, playback=None, time_s=None, error=err, wall_s=0, cmd='')
+    cmd = ['cbmc'] + CBMC_FLAGS + ['--unwind', str(unwind)]
+    us = spec_unwindset(target, h)
+    if us: cmd += ['--unwindset', us]
+    cmd += [f, '--json-ui']
+    t0 = time.time()
+    try:
+        p = subprocess.run(cmd, capture_output=True, text=True, timeout=timeout)
+        r = parse_cbmc_json(p.stdout)
+        if r['status'] == 'unknown' and not r.get('error'): r['error'] = (p.stderr or p.stdout)[-800:]
+    except subprocess.TimeoutExpired:
+        r = dict(status='timeout', failed_checks=[], checks=0, failed=0, covers={}, playback=None, time_s=None)
+    r['wall_s'] = time.time() - t0
+    r['time_s'] = round(r['wall_s'], 2)
+    r['cmd'] = 'cbmc %s --unwind %s [--unwindset <spec loops>:24] <goto binary of %s> --json-ui' % (' '.join(CBMC_FLAGS), unwind, h)
+    return h, r
 
 def _one(args):
     crate_dir, target, h, module, feats, timeout, playback, extra = args
@@ -432,6 +522,16 @@ def run_pool(crate_dir, harnesses, features=(), jobs=16, timeout=900, playback=F
         return dict(cmd=' '.join(cmd), results={}, wall_s=time.time() - t0, rc=p.returncode, timed_out=False,
                     build_error='\n'.join(l for l in out.splitlines() if not FILTER.search(l))[-4000:])
     results = {}
+    idx = full_index(crate_dir)
+    if not playback and all(h in idx and idx[h].get('unwind') for h in harnesses):
+        # CBMC is run directly on the goto binaries kani-driver produced in the codegen step: `cargo kani --harness X`
+        # recompiles the whole crate for every X (the harness filter is a compiler flag), which serialises the pool
+        with ThreadPoolExecutor(max_workers=jobs) as ex:
+            for h, r in ex.map(_one_cbmc, [(crate_dir, target, h, idx[h]['unwind'], timeout) for h in harnesses]):
+                results[h] = r
+        return dict(cmd='cargo kani --only-codegen%s; then per harness: cbmc %s --unwind <len+3> [--unwindset <spec loops>:24] <harness goto binary> --json-ui  (x%d, %d parallel)'
+                        % ((' --features ' + ','.join(features)) if features else '', ' '.join(CBMC_FLAGS), len(harnesses), jobs),
+                    results=results, wall_s=time.time() - t0, rc=0, timed_out=any(r['status'] == 'timeout' for r in results.values()), build_error=None)
     with ThreadPoolExecutor(max_workers=jobs) as ex:
         for h, r in ex.map(_one, [(crate_dir, target, h, module, features, timeout, playback, extra) for h in harnesses]):
             results[h] = r
